@@ -92,7 +92,24 @@ func typesFor(all bool) []typ {
 
 // gamma embeds the three clusters of the model domain at the type's bounds.
 func (t typ) gamma(v int) *big.Int {
+	two64 := new(big.Int).Lsh(big.NewInt(1), 64)
 	switch {
+	case v >= 25 || v <= -5:
+		// far outside every type: a magnitude of 2^64 or more, chosen so that a reading that wraps around lands inside
+		// the type; for decimal64 a whole number, so that it can be written with few digits ("20" at fraction-digits 18)
+		far := new(big.Int).Add(t.hi, two64)
+		if t.fd > 0 {
+			p := new(big.Int).Exp(big.NewInt(10), big.NewInt(int64(t.fd)), nil)
+			q := new(big.Int).Div(two64, p)
+			far = q.Add(q, big.NewInt(2)).Mul(q, p)
+		}
+		if v <= -5 {
+			if t.fd > 0 {
+				return far.Neg(far)
+			}
+			return new(big.Int).Sub(t.lo, two64)
+		}
+		return far
 	case v <= 5:
 		return new(big.Int).Add(t.lo, big.NewInt(int64(v)))
 	case v <= 16:
@@ -101,6 +118,9 @@ func (t typ) gamma(v int) *big.Int {
 		return new(big.Int).Add(t.hi, big.NewInt(int64(v-22)))
 	}
 }
+
+// short: write decimals without trailing fraction zeros ("20" instead of "20.000")
+var short bool
 
 func (t typ) lit(x *big.Int) string {
 	if t.fd == 0 {
@@ -112,6 +132,10 @@ func (t typ) lit(x *big.Int) string {
 		d = "0" + d
 	}
 	s := d[:len(d)-t.fd] + "." + d[len(d)-t.fd:]
+	if short {
+		s = strings.TrimRight(s, "0")
+		s = strings.TrimSuffix(s, ".")
+	}
 	if neg {
 		s = "-" + s
 	}
@@ -142,7 +166,7 @@ func (t typ) rangeStr(rs []rg, sep string) string {
 
 func (t typ) tokStr(toks []int, sp string) string {
 	var sb strings.Builder
-	isB := func(k int) bool { return k < 2000000 }
+	isB := func(k int) bool { return k < 2000000 || k == junk } // a junk spelling is a word too
 	for i, k := range toks {
 		if i > 0 {
 			if isB(k) && isB(toks[i-1]) {
@@ -156,13 +180,23 @@ func (t typ) tokStr(toks []int, sp string) string {
 		case bar:
 			sb.WriteString("|")
 		case junk:
-			sb.WriteString("?")
+			if t.fd > 0 {
+				sb.WriteString(junkDec[(i+len(toks))%len(junkDec)])
+			} else {
+				sb.WriteString(junkInt[(i+len(toks)+len(t.name))%len(junkInt)])
+			}
 		default:
 			sb.WriteString(t.sym(k))
 		}
 	}
 	return sb.String()
 }
+
+// spellings that are not a range-boundary of RFC 7950 (integer-value / decimal-value / min / max)
+var (
+	junkInt = []string{"?", "0x1", "+1", "1_0", "0b1", "0o7", "1e1", "1.0", "MAX", "Min"}
+	junkDec = []string{"?", ".5", "5.", "-.5", "+1.5", "1.5.", "0x1.0", "1_0.0", "1e1", "max."}
+)
 
 func num(n yang.Number) *big.Int {
 	x := new(big.Int).SetUint64(n.Value)
@@ -214,6 +248,19 @@ func (t typ) module(parent []rg, steps []string) string {
 	return sb.String()
 }
 
+// unionModule: the chain's typedefs up to the last step; the last restriction appears only as the second
+// member type of a union, after an unrestricted member of the same type.
+func (t typ) unionModule(parent []rg, steps []string) string {
+	kw := "range"
+	if t.length {
+		kw = "length"
+	}
+	full := t.module(parent, steps[:len(steps)-1])
+	full = strings.TrimSuffix(full, "}\n")
+	n := len(steps) - 1
+	return full + fmt.Sprintf(" leaf lu { type union { type t%d; type t%d { %s \"%s\"; } } }\n}\n", n, n, kw, steps[len(steps)-1])
+}
+
 func has(rs []rg, sym int) bool {
 	for _, r := range rs {
 		if r.Lo == sym || r.Hi == sym {
@@ -254,7 +301,33 @@ func exec(kind byte, body []byte) *core.Verdict {
 		} else {
 			steps = []string{t.tokStr(c.Toks, []string{"", " "}[ti%2])}
 		}
+		short = ti%2 == 1
+		for si := range steps { // (rendered again under the literal style of this type)
+			if c.Mode == "parts" {
+				steps[si] = t.rangeStr(c.Steps[si], []string{" | ", "|", " |"}[ti%3])
+			}
+		}
 		text := t.module(c.Parent, steps)
+		if ti%3 == 0 && len(steps) > 0 {
+			// placement inside a union: the same restriction must be judged the same way
+			utext := t.unionModule(c.Parent, steps)
+			ums := yang.NewModules()
+			if err := ums.Parse(utext, "m.yang"); err != nil {
+				return &core.Verdict{Infra: "rendered module does not parse: " + err.Error() + "\n" + utext}
+			}
+			uerrs := ums.Process()
+			v.N++
+			if len(uerrs) == 0 && !allOK {
+				v.OK, v.Sig = false, "accepts-invalid-in-union"
+				v.Detail = fmt.Sprintf("%s fraction-digits=%d: the restriction is invalid but as a union member type it is accepted without error\n%s", t.name, t.fd, utext)
+				return v
+			}
+			if len(uerrs) > 0 && allOK && !c.Invalid {
+				v.OK, v.Sig = false, "rejects-valid-in-union"
+				v.Detail = fmt.Sprintf("%s fraction-digits=%d: valid restriction rejected as a union member type: %v\n%s", t.name, t.fd, uerrs, utext)
+				return v
+			}
+		}
 		v.N++
 		ms := yang.NewModules()
 		if err := ms.Parse(text, "m.yang"); err != nil {
@@ -583,6 +656,7 @@ func check(r *core.Run) {
 	}
 	run("MCRanges_quick.cfg")
 	run("MCRanges_chain.cfg")
+	run("MCRanges_far.cfg")
 	if all {
 		// 2.7 M model cases x 28 concrete types: a seed-chosen third of them
 		k := r.Seed % 3
